@@ -78,3 +78,12 @@ package common
 
 // Beacon.String() only formats its receiver for log lines (effect-free; its text is not used by any contract)
 //@ pure (*github.com/drand/drand/v2/common.Beacon).String
+
+//@ func (*Beacon).Randomness(b) (r)
+//@   props C01
+//@   modifies nothing
+//@   ensures [C01:beacon-randomness-is-the-sha256-of-its-signature] r == digest(256, b.Signature)
+//@ func (*Beacon).GetRandomness(b) (r)
+//@   props C01
+//@   modifies nothing
+//@   ensures [C01:beacon-randomness-is-the-sha256-of-its-signature] r == digest(256, b.Signature)
